@@ -30,8 +30,8 @@ MODES = ["l", "a", "n", "plid", "src", "j", "ahex", "lrev", "bmc", "nE", "plidhe
 KINDS = ["empty", "rand12", "trunc:60-76", "trunc:200-216", "trunc:296-305", "corrupt:0-4", "corrupt:48-52", "corrupt:72-76",
          "corrupt:83-84", "corrupt:212-214", "corrupt:214-215", "corrupt:215-216", "corrupt:154-156", "corrupt:156-157", "corrupt:186-187", "subdir",
          "subdir-only", "trunc:48-72"]
-CASES = ["%s/%s" % (m, k) for m in MODES for k in KINDS] + ["a/empty:pct", "l/rand12:pct", "j/empty:pct", "a/corrupt:214-215:v40", "l/corrupt:214-215:v40"]
-QUICK = ["n/empty", "n/rand12", "l/corrupt:186-187", "a/empty:pct", "a/corrupt:0-4", "nE/trunc:48-72", "plidhex/trunc:200-216", "l/subdir-only", "bmc/corrupt:0-4", "a/corrupt:214-215:v40", "l/corrupt:214-215:v40", "a/trunc:200-216", "n/corrupt:48-52", "j/corrupt:83-84", "plid/rand12",
+CASES = ["%s/%s" % (m, k) for m in MODES for k in KINDS] + ["a/empty:pct", "l/rand12:pct", "l/empty:pct", "j/empty:pct", "l/corrupt:186-187:v3", "a/corrupt:186-187:v3", "a/corrupt:214-215:v40", "l/corrupt:214-215:v40"]
+QUICK = ["n/empty", "n/rand12", "l/corrupt:186-187", "l/corrupt:186-187:v3", "a/empty:pct", "l/empty:pct", "a/corrupt:0-4", "nE/trunc:48-72", "plidhex/trunc:200-216", "l/subdir-only", "bmc/corrupt:0-4", "a/corrupt:214-215:v40", "l/corrupt:214-215:v40", "a/trunc:200-216", "n/corrupt:48-52", "j/corrupt:83-84", "plid/rand12",
          "src/empty", "ahex/corrupt:0-4", "a/subdir", "l/corrupt:83-84", "lrev/trunc:60-76"]
 HARNESSES = [{"fn": "h_isolate", "cases": CASES, "quick_cases": QUICK, "timeout": {"quick": 120, "thorough": 900}}]
 BOUNDS = {"directory": "two well-formed logs + one extra file whose sorted position (first / middle / last) is symbolic",
@@ -199,7 +199,7 @@ def h_isolate() -> bool:
     else:
         subdirs = {"archive": [("x_50000009", J), ("junk", b"zz")]}
     try:
-      with deadline(60 if SYMBOLIC else 20):
+      with deadline(30 if SYMBOLIC else 20):
         w0, s0 = _baseline(mode)
         if subdirs is not None:
             w1, s1 = _run(good, mode, subdirs=subdirs)
